@@ -129,7 +129,18 @@ func (t *GoType) HasDirectMethod(name string) bool {
 	return t.isDirectMethod[name]
 }
 
+// GetConverter returns the TypeConverter for this type, creating it on first
+// use. This is safe for concurrent use by multiple goroutines.
 func (t *GoType) GetConverter() (TypeConverter, error) {
+	goTypeMutex.Lock()
+	defer goTypeMutex.Unlock()
+
+	return t.getConverter()
+}
+
+// getConverter is GetConverter for callers that already hold goTypeMutex. It
+// may add entries to the type converter and Go type registries.
+func (t *GoType) getConverter() (TypeConverter, error) {
 	verifAccess(t, "converter", false)
 	if t.converter != nil {
 		return t.converter, nil
